@@ -220,6 +220,19 @@ fn language_job(ctx: &Ctx, job: usize, iters: u64) -> Stats {
             body = crate::gen::render(&ast, &mut rng, crate::gen::Style::Plain);
             st.bump("language_bodies_with_all_connectives");
         }
+        if rng.chance(1, 6) {
+            // a quantifier INSIDE a fixed point whose body reaches its variable only through the
+            // fixed-point variable, the same name being bound again by the outer quantifier
+            let (fix, op) = *rng.pick(&[("lfp", "|"), ("gfp", "&"), ("mu", "or"), ("nu", "and")]);
+            let q2 = *rng.pick(&["exists", "forall", "any", "all"]);
+            let inner: Vec<&str> = (0..1 + rng.usize(3)).map(|_| names[rng.usize(k)]).collect();
+            body = match rng.below(3) {
+                0 => format!("{} X # (({}) {} {} {} # X)", fix, body, op, q2, inner.join(", ")),
+                1 => format!("({} <=> zz) & {} X # (({}) {} ({} & {} {} # X))", inner[0], fix, body, op, inner[0], q2, inner.join(", ")),
+                _ => format!("{} X # (({}) {} {} {} # (X {} {}))", fix, body, op, q2, inner.join(", "), op, names[rng.usize(k)]),
+            };
+            st.bump("quantifier_over_the_fixed_point_variable_only");
+        }
         let len = rng.usize(4);
         let extra = ["zz", "p", "q", "r", "s", "yy"];
         let mut list: Vec<String> = (0..len).map(|_| rng.pick(&extra).to_string()).collect();
